@@ -11,6 +11,7 @@ import PasfmtModel.Model.Mls
 import PasfmtModel.Proofs.RulesIdem
 import PasfmtModel.Proofs.SpacingIdem
 import PasfmtModel.Proofs.GapReadBack
+import PasfmtModel.Proofs.MlsMore
 
 namespace Pasfmt.C03
 
@@ -96,5 +97,32 @@ theorem emitted_gap_read_back (cfg : Config) (n i c s : Nat) :
       { ignored := false, nl := u16sat n, ind := 0, cont := 0,
         sp := u16sat (replicateBytes i cfg.settings.indStr ++ replicateBytes c cfg.settings.contStr ++
           List.replicate s 0x20).length } := ofWs_gap cfg n i c s
+
+/-- **the multi-line string re-indenter is a fixpoint after one application**: if it turned a literal that ends in a
+    quote (every multi-line literal token does) into `c'`, then applied to `c'` with the same counters and settings it
+    reports "no change" - it recomputes the same text - so the token text stays `c'`.  `MlsMore.SettingsOk S` (line
+    ending LF or CR LF, indentation strings of blanks other than CR/LF) holds for the settings of every configuration
+    (`MlsMore.settings_ok`).  Each hypothesis is needed: `C12.mls_no_quote_counterexample`,
+    `C12.mls_settings_counterexamples`. -/
+theorem mls_rewrite_idem (S : Settings) (hS : MlsMore.SettingsOk S) (content : Bytes) (ind cont : Nat) (c' : Bytes)
+    (hq : content.getLast? = some 0x27) (h : mlsRewrite S content ind cont = some c') :
+    mlsRewrite S c' ind cont = none :=
+  MlsMore.mls_idem S hS content ind cont c' hq h
+
+/-- the same for the string-formatting pass on one token of any kind, under every configuration: a token `t'` that
+    carries the text the pass computed for `t` (same kind, same ignored flag) keeps its text when the pass runs again
+    with the same counters.  Excluded: multi-line literal tokens whose text does not end in a quote (there are none). -/
+theorem mls_token_idem (cfg : Config) (fm : Bool) (t t' : FTok) (ind cont : Nat)
+    (hq : isMlsKind t.tok.kind = true → t.tok.content.getLast? = some 0x27)
+    (hk : t'.tok.kind = t.tok.kind) (hi : t'.fmt.ignored = t.fmt.ignored)
+    (hc : t'.tok.content = mlsTok cfg.settings fm t ind cont) : mlsTok cfg.settings fm t' ind cont = t'.tok.content :=
+  MlsMore.mlsTok_idem cfg.settings (MlsMore.settings_ok cfg) fm t t' ind cont hq hk hi hc
+
+-- Tests (labelled as tests).  "'''\n    abc\n    '''" under the default configuration with counters (1, 1):
+-- first application re-indents, second application reports no change
+example : mlsRewrite Config.default.settings [39,39,39,10, 32,32,32,32,97,98,99,10, 32,32,32,32,39,39,39] 1 1
+    = some [39,39,39,10, 32,32,32,32,32,32,97,98,99,10, 32,32,32,32,32,32,39,39,39] := by decide +kernel
+example : mlsRewrite Config.default.settings
+    [39,39,39,10, 32,32,32,32,32,32,97,98,99,10, 32,32,32,32,32,32,39,39,39] 1 1 = none := by decide +kernel
 
 end Pasfmt.C03
